@@ -235,6 +235,8 @@ class Evaluator:
                 else:
                     out.append(self.eval(e, env))
             return out if isinstance(n, ast.List) else tuple(out)
+        if isinstance(n, ast.Set):
+            return {self.eval(e, env) for e in n.elts}
         if isinstance(n, ast.UnaryOp):
             v = self.eval(n.operand, env)
             if isinstance(n.op, ast.USub):
@@ -572,6 +574,13 @@ class Evaluator:
             else:
                 args.append(self.eval(a, env))
         kwargs = {k.arg: self.eval(k.value, env) for k in n.keywords if k.arg}
+        if d == "sum" and f is self.funcs.get(d) and args and any(isinstance(x, Obj) for x in self.iterate(args[0])):
+            acc = args[1] if len(args) > 1 else 0
+            for x in self.iterate(args[0]):
+                acc = self.binop(ast.Add(), acc, x, n)
+            return acc
+        if d in _ITER_BUILTINS and f is self.funcs.get(d):
+            args = [self.iterate(a) if isinstance(a, Obj) and a.resolver is not None and "leaf" not in a.attrs else a for a in args]
         return f(*args, **kwargs)
 
     def isinstance(self, v: Any, cls: ast.AST, env: Dict[str, Any]) -> bool:
@@ -748,6 +757,8 @@ class IndexOutOfRange(Exception):
 
 FELL = Tag("FELL-OFF-END")
 
+_ITER_BUILTINS = {"enumerate", "zip", "map", "sum", "all", "any", "reversed", "min", "max", "sorted", "set", "itertools.chain"}
+
 _SAFE_METHODS = {
     "str": ("format", "join", "split", "strip", "startswith", "endswith", "lower", "upper", "isdigit", "index",
             "find", "replace", "encode", "rstrip", "lstrip", "splitlines"),
@@ -826,6 +837,7 @@ BUILTINS: Dict[str, Callable[..., Any]] = {
     "sum": _sum,
     "min": min,
     "max": max,
+    "sorted": lambda xs, **k: sorted(xs, **k),
     "all": lambda xs: all(xs),
     "any": lambda xs: any(xs),
     "int": lambda x, *b: _int(x, *b),
